@@ -1,0 +1,14 @@
+//go:build verif
+
+package rsm
+
+import (
+	pb "github.com/lni/dragonboat/v4/raftpb"
+)
+
+// VerifMembership returns the applied membership without taking the state
+// machine's lock. Only for the simulator, which calls it while every task is
+// parked at a yield point (a task parked inside Update holds the lock).
+func (s *StateMachine) VerifMembership() pb.Membership {
+	return s.members.get()
+}
